@@ -110,9 +110,12 @@ class C08(IRProp):
                 # inserted code: the state in effect at the insertion point (just before the original instruction at that offset)
                 delta = 0
                 for off, n, ln, plen in mods:
-                    if off in case.cfi.get(i, {}):
+                    on_point = off in case.cfi.get(i, {}) or (off == 0 and i > 0 and case.size(i - 1) in case.cfi.get(i - 1, {})) or \
+                        (off == case.size(i) and 0 in case.cfi.get(i + 1, {}))
+                    if on_point:
                         delta += plen
-                        continue            # directives sit exactly on the insertion point: either side is a legitimate reading
+                        continue            # directives sit exactly on the insertion point (this block's, the end of the previous
+                                            # block or the start of the next one: the same place in the listing): either side is a legitimate reading
                     want_in = state_at(ev0, 0x1000 + begins[i] + off - 1) if off > 0 else state_at(ev0, 0x1000 + begins[i])
                     nxt = state_at(ev0, 0x1000 + begins[i] + off) if off < case.size(i) else want_in
                     for j in range(plen):
